@@ -153,7 +153,18 @@ func runC04(c *Ctx, w *World, r *Report) {
 		// R-PATHFORM
 		badF := ""
 		var iv ssa.Value
-		{
+		if call, isCall := stripConv(p).(*ssa.Call); isCall && call.Common().StaticCallee() != nil && call.Common().StaticCallee() == findFunc(w, "bmtree.NewPath") && len(call.Common().Args) == 3 {
+			// the path is built by the package's own constructor (its layout is C10's R-LAYOUT): NewPath(i, height-tz, height)
+			args := call.Common().Args
+			iv = stripConv(args[0])
+			if !haveH || !haveTz {
+				badF = "height or the level walk was not identified"
+			} else if !fa.Lin(args[2]).Eq(heightL) {
+				badF = "NewPath is not called with the tree height"
+			} else if !fa.Lin(args[1]).Eq(heightL.Sub(tzL)) {
+				badF = "NewPath is called with length " + fa.Lin(args[1]).String() + ", expected height - tz for the tz whose level was tested"
+			}
+		} else {
 			a, b, ok := asBin(p, token.OR)
 			if !ok {
 				badF = "path is not bits<<32 | mask"
